@@ -47,6 +47,7 @@ type mModel struct {
 	Outputs []string `json:"outputs"`
 	Inits   []mInit  `json:"inits"`
 	Opset   int64    `json:"opset"`
+	Unnamed bool     `json:"unnamed"` // nodes carry no name (names are optional in ONNX)
 }
 
 // mRef re-uses a tensor object of an earlier call: its input `name` (kind "in") or its output `name` (kind "out").
@@ -187,7 +188,9 @@ func buildModel(m mModel) ([]byte, error) {
 		if err != nil {
 			return nil, fmt.Errorf("node %d: %w", i, err)
 		}
-		node.Name = fmt.Sprintf("n%d_%s", i, n.Op)
+		if !m.Unnamed {
+			node.Name = fmt.Sprintf("n%d_%s", i, n.Op)
+		}
 		g.Node = append(g.Node, node)
 	}
 	for _, in := range m.Inputs {
